@@ -1354,4 +1354,35 @@ theorem wire_no_empty_slot (ids : List Identifier) (azFps : List Str) (csrFp : O
        | crash => simp [hs, finOfSans, finOfSansAttested] at h
        | val v => cases v <;> simp [hs, finOfSans, finOfSansAttested] at h)
 
+/-- **force_cn_is_a_name** (provisioner option forceCN): the common name of the certificate is the
+    template's, or, when that is empty, one of the certificate's DNS names as it is (never a prefix
+    or any other string); without a DNS name nothing is signed. With `finalize_names` (the DNS names
+    are the order's dns identifiers) a forced common name is an order identifier. -/
+theorem force_cn_is_a_name (force : Bool) (cn cn' : Str) (sans : List San)
+    (h : forceCommonName force cn sans = some cn') :
+    cn' = cn ∨ (force = true ∧ cn = [] ∧ San.dns cn' ∈ sans) := by
+  unfold forceCommonName at h
+  split at h
+  · rename_i hf
+    simp at hf
+    cases hl : sans.filterMap dnsOf with
+    | nil => rw [hl] at h; cases h
+    | cons d rest =>
+      rw [hl] at h
+      injection h with h
+      subst h
+      right
+      refine ⟨hf.1, hf.2, ?_⟩
+      have hm : d ∈ sans.filterMap dnsOf := by rw [hl]; simp
+      obtain ⟨x, hx, e⟩ := List.mem_filterMap.mp hm
+      cases x <;> simp [dnsOf] at e
+      subst e
+      exact hx
+  · left
+    simpa using h.symm
+
+example : forceCommonName true [] [San.ip (s "x"), San.dns (s "zz.example.com"), San.dns (s "a.io")] = some (s "zz.example.com") ∧
+    forceCommonName true [] [San.ip (s "x")] = none ∧ forceCommonName true (s "A.io") [San.dns (s "a.io")] = some (s "A.io") ∧
+    forceCommonName false [] [San.dns (s "a.io")] = some [] := by decide
+
 end Verif.AcmeSans
